@@ -1370,6 +1370,12 @@ class SpaceManager(SharedSpaceOperations):
 
         for subspace in self._get_subs(space):
             if name in subspace.cells:
+                derived = subspace.cells[name]
+                if derived.is_derived():
+                    bases = self.get_deriv_bases(derived, defined_only=True)
+                    if bases[0] is cells:   # cells precedes the former base
+                        subspace.clear_subs_rootitems()
+                        derived.on_inherit(self, bases)
                 continue
             else:
                 subspace.clear_subs_rootitems()
